@@ -72,36 +72,36 @@ type impl struct {
 	sch      kem.Scheme
 	mlkem    bool
 	newKey   func(seed []byte) (pubKey, privKey)
-	unpackPK func([]byte) (pubKey, error) // direct PublicKey.Unpack
-	unpackSK func([]byte) (privKey, error)
+	unpackPK func(...[]byte) (pubKey, error) // direct PublicKey.Unpack of each argument in turn into the same object
+	unpackSK func(...[]byte) (privKey, error)
 }
 
 func impls() []impl {
 	return []impl{
 		{name: "ML-KEM-512", ref: mlkem.Get(2, false), sch: mlkem512.Scheme(), mlkem: true,
 			newKey:   func(s []byte) (pubKey, privKey) { a, b := mlkem512.NewKeyFromSeed(s); return a, b },
-			unpackPK: func(b []byte) (pubKey, error) { var k mlkem512.PublicKey; err := k.Unpack(b); return &k, err },
-			unpackSK: func(b []byte) (privKey, error) { var k mlkem512.PrivateKey; err := k.Unpack(b); return &k, err }},
+			unpackPK: func(bs ...[]byte) (pubKey, error) { var k mlkem512.PublicKey; var err error; for _, b := range bs { err = k.Unpack(b) }; return &k, err },
+			unpackSK: func(bs ...[]byte) (privKey, error) { var k mlkem512.PrivateKey; var err error; for _, b := range bs { err = k.Unpack(b) }; return &k, err }},
 		{name: "ML-KEM-768", ref: mlkem.Get(3, false), sch: mlkem768.Scheme(), mlkem: true,
 			newKey:   func(s []byte) (pubKey, privKey) { a, b := mlkem768.NewKeyFromSeed(s); return a, b },
-			unpackPK: func(b []byte) (pubKey, error) { var k mlkem768.PublicKey; err := k.Unpack(b); return &k, err },
-			unpackSK: func(b []byte) (privKey, error) { var k mlkem768.PrivateKey; err := k.Unpack(b); return &k, err }},
+			unpackPK: func(bs ...[]byte) (pubKey, error) { var k mlkem768.PublicKey; var err error; for _, b := range bs { err = k.Unpack(b) }; return &k, err },
+			unpackSK: func(bs ...[]byte) (privKey, error) { var k mlkem768.PrivateKey; var err error; for _, b := range bs { err = k.Unpack(b) }; return &k, err }},
 		{name: "ML-KEM-1024", ref: mlkem.Get(4, false), sch: mlkem1024.Scheme(), mlkem: true,
 			newKey:   func(s []byte) (pubKey, privKey) { a, b := mlkem1024.NewKeyFromSeed(s); return a, b },
-			unpackPK: func(b []byte) (pubKey, error) { var k mlkem1024.PublicKey; err := k.Unpack(b); return &k, err },
-			unpackSK: func(b []byte) (privKey, error) { var k mlkem1024.PrivateKey; err := k.Unpack(b); return &k, err }},
+			unpackPK: func(bs ...[]byte) (pubKey, error) { var k mlkem1024.PublicKey; var err error; for _, b := range bs { err = k.Unpack(b) }; return &k, err },
+			unpackSK: func(bs ...[]byte) (privKey, error) { var k mlkem1024.PrivateKey; var err error; for _, b := range bs { err = k.Unpack(b) }; return &k, err }},
 		{name: "Kyber512", ref: mlkem.Get(2, true), sch: kyber512.Scheme(),
 			newKey:   func(s []byte) (pubKey, privKey) { a, b := kyber512.NewKeyFromSeed(s); return a, b },
-			unpackPK: func(b []byte) (pubKey, error) { var k kyber512.PublicKey; k.Unpack(b); return &k, nil },
-			unpackSK: func(b []byte) (privKey, error) { var k kyber512.PrivateKey; k.Unpack(b); return &k, nil }},
+			unpackPK: func(bs ...[]byte) (pubKey, error) { var k kyber512.PublicKey; for _, b := range bs { k.Unpack(b) }; return &k, nil },
+			unpackSK: func(bs ...[]byte) (privKey, error) { var k kyber512.PrivateKey; for _, b := range bs { k.Unpack(b) }; return &k, nil }},
 		{name: "Kyber768", ref: mlkem.Get(3, true), sch: kyber768.Scheme(),
 			newKey:   func(s []byte) (pubKey, privKey) { a, b := kyber768.NewKeyFromSeed(s); return a, b },
-			unpackPK: func(b []byte) (pubKey, error) { var k kyber768.PublicKey; k.Unpack(b); return &k, nil },
-			unpackSK: func(b []byte) (privKey, error) { var k kyber768.PrivateKey; k.Unpack(b); return &k, nil }},
+			unpackPK: func(bs ...[]byte) (pubKey, error) { var k kyber768.PublicKey; for _, b := range bs { k.Unpack(b) }; return &k, nil },
+			unpackSK: func(bs ...[]byte) (privKey, error) { var k kyber768.PrivateKey; for _, b := range bs { k.Unpack(b) }; return &k, nil }},
 		{name: "Kyber1024", ref: mlkem.Get(4, true), sch: kyber1024.Scheme(),
 			newKey:   func(s []byte) (pubKey, privKey) { a, b := kyber1024.NewKeyFromSeed(s); return a, b },
-			unpackPK: func(b []byte) (pubKey, error) { var k kyber1024.PublicKey; k.Unpack(b); return &k, nil },
-			unpackSK: func(b []byte) (privKey, error) { var k kyber1024.PrivateKey; k.Unpack(b); return &k, nil }},
+			unpackPK: func(bs ...[]byte) (pubKey, error) { var k kyber1024.PublicKey; for _, b := range bs { k.Unpack(b) }; return &k, nil },
+			unpackSK: func(bs ...[]byte) (privKey, error) { var k kyber1024.PrivateKey; for _, b := range bs { k.Unpack(b) }; return &k, nil }},
 	}
 }
 
@@ -120,9 +120,9 @@ type pkeImpl struct {
 	k           int
 	newKey      func(seed []byte) (pkePub, pkePriv)
 	newKeyMLKEM func(seed []byte) (pkePub, pkePriv)
-	unpackPK    func([]byte) pkePub
+	unpackPK    func(...[]byte) pkePub
 	unpackPKML  func([]byte) (pkePub, error)
-	unpackSK    func([]byte) pkePriv
+	unpackSK    func(...[]byte) pkePriv
 }
 
 func pkeImpls() []pkeImpl {
@@ -130,21 +130,21 @@ func pkeImpls() []pkeImpl {
 		{name: "pke/kyber512", k: 2,
 			newKey:      func(s []byte) (pkePub, pkePriv) { a, b := pke512.NewKeyFromSeed(s); return a, b },
 			newKeyMLKEM: func(s []byte) (pkePub, pkePriv) { a, b := pke512.NewKeyFromSeedMLKEM(s); return a, b },
-			unpackPK:    func(b []byte) pkePub { var k pke512.PublicKey; k.Unpack(b); return &k },
+			unpackPK:    func(bs ...[]byte) pkePub { var k pke512.PublicKey; for _, b := range bs { k.Unpack(b) }; return &k },
 			unpackPKML:  func(b []byte) (pkePub, error) { var k pke512.PublicKey; err := k.UnpackMLKEM(b); return &k, err },
-			unpackSK:    func(b []byte) pkePriv { var k pke512.PrivateKey; k.Unpack(b); return &k }},
+			unpackSK:    func(bs ...[]byte) pkePriv { var k pke512.PrivateKey; for _, b := range bs { k.Unpack(b) }; return &k }},
 		{name: "pke/kyber768", k: 3,
 			newKey:      func(s []byte) (pkePub, pkePriv) { a, b := pke768.NewKeyFromSeed(s); return a, b },
 			newKeyMLKEM: func(s []byte) (pkePub, pkePriv) { a, b := pke768.NewKeyFromSeedMLKEM(s); return a, b },
-			unpackPK:    func(b []byte) pkePub { var k pke768.PublicKey; k.Unpack(b); return &k },
+			unpackPK:    func(bs ...[]byte) pkePub { var k pke768.PublicKey; for _, b := range bs { k.Unpack(b) }; return &k },
 			unpackPKML:  func(b []byte) (pkePub, error) { var k pke768.PublicKey; err := k.UnpackMLKEM(b); return &k, err },
-			unpackSK:    func(b []byte) pkePriv { var k pke768.PrivateKey; k.Unpack(b); return &k }},
+			unpackSK:    func(bs ...[]byte) pkePriv { var k pke768.PrivateKey; for _, b := range bs { k.Unpack(b) }; return &k }},
 		{name: "pke/kyber1024", k: 4,
 			newKey:      func(s []byte) (pkePub, pkePriv) { a, b := pke1024.NewKeyFromSeed(s); return a, b },
 			newKeyMLKEM: func(s []byte) (pkePub, pkePriv) { a, b := pke1024.NewKeyFromSeedMLKEM(s); return a, b },
-			unpackPK:    func(b []byte) pkePub { var k pke1024.PublicKey; k.Unpack(b); return &k },
+			unpackPK:    func(bs ...[]byte) pkePub { var k pke1024.PublicKey; for _, b := range bs { k.Unpack(b) }; return &k },
 			unpackPKML:  func(b []byte) (pkePub, error) { var k pke1024.PublicKey; err := k.UnpackMLKEM(b); return &k, err },
-			unpackSK:    func(b []byte) pkePriv { var k pke1024.PrivateKey; k.Unpack(b); return &k }},
+			unpackSK:    func(bs ...[]byte) pkePriv { var k pke1024.PrivateKey; for _, b := range bs { k.Unpack(b) }; return &k }},
 	}
 }
 
@@ -545,9 +545,12 @@ func pkeCase(t *rapid.T, im pkeImpl) {
 	// optionally lift some coefficients of the encoded keys by q (same residue, not reduced)
 	ekIn := append([]byte{}, wantEk...)
 	dkIn := append([]byte{}, wantDk...)
-	keyForm := rapid.SampledFrom([]string{"reduced", "reduced", "ek-unreduced", "dk-unreduced"}).Draw(t, "keyform")
+	keyForm := rapid.SampledFrom([]string{"reduced", "reduced", "ek-unreduced", "dk-unreduced", "rho-edge", "rho-edge"}).Draw(t, "keyform")
 	lifted := 0
-	if keyForm != "reduced" {
+	if keyForm == "rho-edge" {
+		// the matrix seed is attacker-chosen in a received key: all-zero, all-ones, one bit, ...
+		copy(ekIn[384*im.k:], edgeRho(t))
+	} else if keyForm != "reduced" {
 		buf := ekIn
 		if keyForm == "dk-unreduced" {
 			buf = dkIn
@@ -564,20 +567,54 @@ func pkeCase(t *rapid.T, im pkeImpl) {
 	c2 := make([]byte, p.CtSize())
 	var upk pkePub
 	var usk pkePriv
+	// the key object may have held another key before (Unpack into a used object)
+	reuse := rapid.SampledFrom([]string{"fresh", "fresh", "after-same-rho-other-t", "after-other-key", "after-zero-rho"}).Draw(t, "reuse")
+	var firstEk, firstDk []byte
+	if reuse != "fresh" {
+		d2 := append([]byte{}, d...)
+		d2[0] ^= 0x55
+		firstEk, firstDk = p.PKEKeyGen(d2)
+		switch reuse {
+		case "after-same-rho-other-t":
+			copy(firstEk[384*im.k:], ekIn[384*im.k:])
+		case "after-zero-rho":
+			copy(firstEk[384*im.k:], make([]byte, 32))
+		}
+	}
+	vlib.Class(sub, "key-object="+reuse)
+	var mlErr error
 	if !catchRep(t, "C03/panic/"+im.name+"/encrypt", fmt.Sprintf("d %x m %x r %x", d, m, r), func() {
 		pk.EncryptTo(c1, m, r)
-		upk = im.unpackPK(ekIn)
-		usk = im.unpackSK(dkIn)
+		if reuse == "fresh" {
+			upk = im.unpackPK(ekIn)
+			usk = im.unpackSK(dkIn)
+		} else {
+			upk = im.unpackPK(firstEk, ekIn)
+			usk = im.unpackSK(firstDk, dkIn)
+		}
 		upk.EncryptTo(c2, m, r)
+		_, mlErr = im.unpackPKML(ekIn)
 	}) {
 		return
 	}
-	if !bytes.Equal(c1, wantC) || !bytes.Equal(c2, wantC) {
-		vlib.Report(t, "C03/pke-encrypt/"+im.name+"/"+keyForm, fmt.Sprintf("d %x m %x r %x (%s): ciphertext differs from the reference: generated-key path equal=%v, unpacked-key path equal=%v, first differing byte %d", d, m, r, flavour, bytes.Equal(c1, wantC), bytes.Equal(c2, wantC), firstDiff(c2, wantC)))
+	if (mlErr == nil) != p.CheckEk(ekIn) {
+		vlib.Report(t, "C03/pke-unpackmlkem/"+im.name, fmt.Sprintf("d %x (%s): UnpackMLKEM err=%v but the FIPS 203 modulus check says valid=%v", d, keyForm, mlErr, p.CheckEk(ekIn)))
 		return
 	}
-	if keyForm != "reduced" {
+	if keyForm == "rho-edge" {
+		copy(c1, wantC) // the generated key object has the original rho; only the parsed key is compared
+	}
+	if !bytes.Equal(c1, wantC) || !bytes.Equal(c2, wantC) {
+		vlib.Report(t, "C03/pke-encrypt/"+im.name+"/"+keyForm, fmt.Sprintf("d %x m %x r %x (%s, key object %s, rho %x): ciphertext differs from the reference: generated-key path equal=%v, unpacked-key path equal=%v, first differing byte %d", d, m, r, flavour, reuse, ekIn[384*im.k:], bytes.Equal(c1, wantC), bytes.Equal(c2, wantC), firstDiff(c2, wantC)))
+		return
+	}
+	if keyForm == "rho-edge" {
+		vlib.NonTrivial(sub, "edge-rho-key", d, m, r, ekIn)
+	} else if keyForm != "reduced" {
 		vlib.NonTrivial(sub, "unreduced-key-coefficients", d, m, r, ekIn, dkIn)
+	}
+	if reuse != "fresh" {
+		vlib.NonTrivial(sub, "unpack-into-used-object", d, m, r, ekIn, firstEk)
 	}
 
 	kinds := append([]string{"honest"}, ctKinds...)
@@ -604,7 +641,7 @@ func pkeCase(t *rapid.T, im pkeImpl) {
 			return
 		}
 		if kind == "honest" {
-			if !bytes.Equal(want, m) {
+			if !bytes.Equal(want, m) && keyForm != "rho-edge" {
 				// decryption failure of the scheme itself (probability < 2^-139): not a defect of circl
 				vlib.Class(sub, "scheme-decryption-failure")
 			}
@@ -616,6 +653,32 @@ func pkeCase(t *rapid.T, im pkeImpl) {
 		vlib.NonTrivial(sub, "decrypt-non-honest", d, c)
 		vlib.Sample(sub, "ct="+kind, fmt.Sprintf("%s d=%x ct: %s -> m'=%x (%d coefficients of v-s.u exactly on a rounding boundary)", im.name, d, desc, want, hits))
 	}
+}
+
+// edgeRho draws a 32-byte matrix seed from the values a cache / zero-value
+// shortcut would confuse: all-zero, all-0xFF, a single bit, 0x00..01, counting.
+func edgeRho(t *rapid.T) []byte {
+	rho := make([]byte, 32)
+	switch rapid.SampledFrom([]string{"zero", "zero", "zero", "ones", "bit", "last-byte-1", "first-byte-1", "count", "zero-prefix"}).Draw(t, "rho") {
+	case "ones":
+		for i := range rho {
+			rho[i] = 0xff
+		}
+	case "bit":
+		i := rapid.IntRange(0, 255).Draw(t, "rhobit")
+		rho[i/8] = 1 << uint(i%8)
+	case "last-byte-1":
+		rho[31] = 1
+	case "first-byte-1":
+		rho[0] = 1
+	case "count":
+		for i := range rho {
+			rho[i] = byte(i)
+		}
+	case "zero-prefix":
+		vlib.FillRandom(t, rho[16:], "rhotail")
+	}
+	return rho
 }
 
 func kindKey(kind string) string {
@@ -733,13 +796,25 @@ func parseCase(t *rapid.T, im impl) {
 	k := p.K
 
 	kind := rapid.SampledFrom([]string{"ek-coef>=q", "ek-coef>=q", "ek-coef>=q", "ek-bitflip", "ek-random", "ek-length", "ek-wellformed-edge",
-		"dk-h-corrupt", "dk-h-corrupt", "dk-ek-corrupt", "dk-bitflip-any", "dk-pke-or-z-mutated", "dk-ek-unreduced-hash-fixed", "dk-length"}).Draw(t, "kind")
+		"dk-h-corrupt", "dk-h-corrupt", "dk-ek-corrupt", "dk-bitflip-any", "dk-pke-or-z-mutated", "dk-ek-unreduced-hash-fixed", "dk-length",
+		"ek-rho-edge", "ek-rho-edge", "dk-rho-edge", "dk-rho-edge"}).Draw(t, "kind")
 	vlib.Class(sub, "kind="+kind)
+	rhoDesc := ""
+	if kind == "ek-rho-edge" || kind == "dk-rho-edge" {
+		// a consistent key pair (t = A(rho) s + e) whose matrix seed is an edge value; the hash in
+		// KeyGen never yields such a rho, a received key can carry any
+		rho := edgeRho(t)
+		ek, dk = p.KeyGenRhoSigma(rho, seed[:32], seed[32:])
+		rhoDesc = fmt.Sprintf(" rho=%x", rho)
+	}
+	// a typed key object may have held the honest key of this seed before (Unpack into a used object)
+	usedObject := rapid.IntRange(0, 3).Draw(t, "usedObject") == 0
+	honestEk, honestDk := p.KeyGen(seed[:32], seed[32:])
 
 	switch kind {
-	case "ek-coef>=q", "ek-bitflip", "ek-random", "ek-length", "ek-wellformed-edge":
+	case "ek-coef>=q", "ek-bitflip", "ek-random", "ek-length", "ek-wellformed-edge", "ek-rho-edge":
 		b := append([]byte{}, ek...)
-		desc := kind
+		desc := kind + rhoDesc
 		switch kind {
 		case "ek-coef>=q":
 			n := rapid.SampledFrom([]int{1, 1, 1, 2, 5}).Draw(t, "ncoef")
@@ -803,8 +878,18 @@ func parseCase(t *rapid.T, im impl) {
 			m := vlib.EdgeBytes(t, 32, "m")
 			wantK, wantC := p.Encaps(b, m)
 			ct, ss, _ := im.sch.EncapsulateDeterministically(pk, m)
-			if !bytes.Equal(ct, wantC) || !bytes.Equal(ss, wantK) {
-				vlib.Report(t, "C03/parse/"+im.name+"/ek-encaps-after-parse", fmt.Sprintf("seed %x %s m %x: encapsulation to the parsed key differs from the reference", seed, desc, m))
+			ct2 := make([]byte, p.CtSize())
+			ss2 := make([]byte, 32)
+			var tpk pubKey
+			if usedObject {
+				tpk, _ = im.unpackPK(honestEk, b)
+				vlib.Class(sub, "ek-unpacked-into-used-object")
+			} else {
+				tpk, _ = im.unpackPK(b)
+			}
+			tpk.EncapsulateTo(ct2, ss2, m)
+			if !bytes.Equal(ct, wantC) || !bytes.Equal(ss, wantK) || !bytes.Equal(ct2, wantC) || !bytes.Equal(ss2, wantK) {
+				vlib.Report(t, "C03/parse/"+im.name+"/ek-encaps-after-parse", fmt.Sprintf("seed %x %s m %x: encapsulation to the parsed key differs from the reference (scheme API equal=%v, typed API equal=%v, used object=%v)", seed, desc, m, bytes.Equal(ct, wantC) && bytes.Equal(ss, wantK), bytes.Equal(ct2, wantC) && bytes.Equal(ss2, wantK), usedObject))
 				return
 			}
 			vlib.Class(sub, "ek-accepted")
@@ -819,7 +904,7 @@ func parseCase(t *rapid.T, im impl) {
 
 	default:
 		b := append([]byte{}, dk...)
-		desc := kind
+		desc := kind + rhoDesc
 		pkeMut := false
 		switch kind {
 		case "dk-h-corrupt":
@@ -872,7 +957,11 @@ func parseCase(t *rapid.T, im impl) {
 		if !catchRep(t, "C03/panic/"+im.name+"/parse-dk", desc, func() {
 			sk, e1 = im.sch.UnmarshalBinaryPrivateKey(b)
 			if len(b) == p.DkSize() || im.mlkem {
-				d, e2 = im.unpackSK(b)
+				if usedObject && len(b) == p.DkSize() {
+					d, e2 = im.unpackSK(honestDk, b)
+				} else {
+					d, e2 = im.unpackSK(b)
+				}
 			}
 			if e1 == nil {
 				re, _ = sk.MarshalBinary()
@@ -932,12 +1021,96 @@ func parseCase(t *rapid.T, im impl) {
 			return
 		}
 		vlib.Class(sub, "dk-accepted")
-		if !bytes.Equal(b, dk) {
+		if usedObject {
+			vlib.Class(sub, "dk-unpacked-into-used-object")
+		}
+		if kind == "dk-rho-edge" {
+			vlib.NonTrivial(sub, "dk-edge-rho-decaps", b, c)
+		} else if !bytes.Equal(b, dk) {
 			cls := "dk-accepted-variant"
 			if pkeMut {
 				cls = "dk-pke-or-z-mutated-decaps"
 			}
 			vlib.NonTrivial(sub, cls, b, c)
+		}
+	}
+}
+
+// ---------------------------------------------------------------------------
+// every single-bit flip of one honest ciphertext per parameter set
+
+// TestC03AllBitFlips decapsulates single-bit flips of one honest ciphertext
+// per parameter set and compares every result byte for byte with the
+// reference (all are implicit rejections J(z||c') resp. KDF(z||H(c')); a
+// comparison that skips part of the ciphertext shows up as the honest K).
+// Thorough: every bit (split over the shards). Quick (13 700 reference
+// decapsulations per process would not fit the time budget on a busy machine):
+// every bit of the last 256 bytes (all of c2 and the end of c1) and of the
+// first 32 bytes, and every 8th bit elsewhere with an offset that depends on
+// the seed, so that seeds 1..8 together cover every bit.
+func TestC03AllBitFlips(t *testing.T) {
+	defer vlib.Done()
+	if !selfTest(t) {
+		return
+	}
+	for _, im := range impls() {
+		p := im.ref
+		sub := "allflips/" + im.name
+		seed := make([]byte, 64)
+		m := make([]byte, 32)
+		vlib.ExpandInto(seed, uint64(vlib.Seed)*131+uint64(p.K))
+		vlib.ExpandInto(m, uint64(vlib.Seed)*137+uint64(p.K)+1000)
+		ek, dk := p.KeyGen(seed[:32], seed[32:])
+		K, c := p.Encaps(ek, m)
+		_, sk := im.sch.DeriveKeyPair(seed)
+		usk, err := im.unpackSK(dk)
+		if err != nil {
+			vlib.ReportDirect(t, "C03/parse/"+im.name+"/wellformed-refused", fmt.Sprintf("seed %x: Unpack of a generated dk: %v", seed, err), map[string]interface{}{"seed": fmt.Sprintf("%x", seed)})
+			continue
+		}
+		nbits := 8 * len(c)
+		var idx []int
+		for i := 0; i < nbits; i++ {
+			if vlib.Thorough() || i >= nbits-8*256 || i < 8*32 || (i+vlib.Seed)%8 == 0 {
+				idx = append(idx, i)
+			}
+		}
+		if vlib.Shard == 0 {
+			if vlib.Thorough() {
+				vlib.Exhaustive("Decaps of every single-bit flip of one honest ciphertext: "+im.name, int64(nbits), "all shards together; byte equality with the reference")
+			} else {
+				vlib.Exhaustive("Decaps of every single-bit flip in the last 256 and first 32 bytes of one honest ciphertext: "+im.name, int64(8*288), "all shards together; plus every 8th bit elsewhere (offset rotates with the seed); byte equality with the reference")
+			}
+		}
+		honestK := 0
+		for n, i := range idx {
+			if n%vlib.NShards != vlib.Shard {
+				continue
+			}
+			c2 := append([]byte{}, c...)
+			c2[i/8] ^= 1 << uint(i%8)
+			want := p.Decaps(dk, c2)
+			g1, _ := im.sch.Decapsulate(sk, c2)
+			g2 := make([]byte, 32)
+			usk.DecapsulateTo(g2, c2)
+			vlib.Eval(sub)
+			if !bytes.Equal(g1, want) || !bytes.Equal(g2, want) {
+				what := "differs from the reference"
+				if bytes.Equal(g1, K) || bytes.Equal(g2, K) {
+					what = "is the HONEST shared secret (the altered ciphertext was accepted)"
+				}
+				if vlib.ReportDirect(t, "C03/decaps/"+im.name+"/single-bit-flip", fmt.Sprintf("seed %x m %x, bit %d (byte %d of %d) of the honest ciphertext flipped: Decaps gives %x (generated key) / %x (unpacked key), which %s; reference %x", seed, m, i, i/8, len(c), g1, g2, what, want), map[string]interface{}{"seed": fmt.Sprintf("%x", seed), "m": fmt.Sprintf("%x", m), "bit": i}) {
+					continue
+				}
+				break
+			}
+			if bytes.Equal(want, K) {
+				honestK++ // cannot happen for a correct reference: c' != c is always rejected
+			}
+			vlib.NonTrivialH(sub, "", vlib.Hash64(seed, m, []byte{byte(i), byte(i >> 8), byte(i >> 16)}))
+		}
+		if honestK != 0 {
+			t.Fatalf("SELFTEST-FAIL reference accepted %d altered ciphertexts", honestK)
 		}
 	}
 }
